@@ -239,10 +239,12 @@ class NumberOperator(HermitianOperator):
         """
         if (
             exp.is_integer
-            and exp != 0
+            and exp.is_positive
             and self.args[1].name not in ("BosonOp", "LadderOp")
         ):
-            return self  # Fermionic and spin number operators are idempotent.
+            # Fermionic and spin number operators are idempotent (and not invertible:
+            # negative powers are left alone).
+            return self
         return super()._eval_power(exp)
 
     def _eval_commutator_NumberOperator(self, other):  # noqa: ARG002
